@@ -41,7 +41,7 @@ ASSUMPTIONS = [
   "initial interval-sensor timestamps dt*ceil(x): entries with |x-round(x)|<1e-5 that differ from MuJoCo by exactly one dt are a float rounding boundary (skipped, aligned)",
   "only step() is exercised (forward() alone inserts sensor samples earlier than MuJoCo's mj_advance; not part of the statement)",
 ]
-BUDGET = {"quick": dict(examples=400, seconds=150, workers=16), "thorough": dict(examples=8000, seconds=1500, workers=16)}
+BUDGET = {"quick": dict(examples=400, seconds=420, workers=16), "thorough": dict(examples=8000, seconds=1500, workers=16)}
 
 T_TIME = 5e-6  # timestamps, user slot, time (observed <= 2e-7)
 T_CTRL = 3e-4  # recorded / read controls relative to the buffer's scale (observed <= 1.3e-5: float32 interpolation weights)
